@@ -376,6 +376,7 @@ class Engine:
             self.model = None
             self.decl = {}      # name -> (kind, z3 const) declared on the current path
             self.rcache = {}
+            self.bcache = {}
             _CURRENT[0] = self
         else:
             self.missing = []
@@ -486,6 +487,14 @@ class Engine:
             return True
         if z3.is_false(cond):
             return False
+        cid = cond.get_id()
+        if cid in self.bcache:          # same formula already decided on this path
+            return self.bcache[cid]
+        val = self._branch(cond)
+        self.bcache[cid] = val
+        return val
+
+    def _branch(self, cond):
         self.stats.branches += 1
         if self.pos < len(self.prefix):
             d = self.prefix[self.pos]
@@ -656,6 +665,7 @@ class Engine:
             self.trace = []
             self.pos = 0
             self.rcache = {}
+            self.bcache = {}
             self.decl = {}
             self.model = None
             try:
